@@ -140,6 +140,25 @@ def job_timeouts(src, kind='start', k=4, target_index=0):
     src.reach('done')
 
 
+@rigged
+def placements(src, n=2):
+    """H16f: the start requests of C04 (nobody eligible, program unknown / disabled somewhere, loads) with the
+    traceback oracle only - an unplaceable request comes back synchronously as a forced FATAL event into the Starter"""
+    from harness import c04
+    c04.start_apps.__wrapped__(_OnlyInternalErrors(src), n=n, procs=1, apps=1, lean=False)
+    src.reach('done')
+
+
+@rigged
+def disturbed_distribution(src, n=3):
+    """H16g: the schedules of C08 with a real DISTRIBUTION pending (real rules file, slow supervisords) and two
+    crashes / restarts, with the traceback oracle only"""
+    from harness import c08
+    c08.recovery.__wrapped__(_OnlyInternalErrors(src), n=n, distribution=True, configs=('LIST+TIMEOUT',),
+                             fences=(False,), closing=6)
+    src.reach('done')
+
+
 class _OnlyInternalErrors:
     """passes everything to the source but keeps only the internal-error assertion of the reused scenario"""
     def __init__(self, src):
@@ -160,6 +179,10 @@ HARNESSES = [
     Harness('H16e-stop', job_timeouts, quick={'kind': 'stop', 'k': 4, 'target_index': 1},
             thorough={'kind': 'stop', 'k': 6, 'target_index': 1}, reach=('done',), timeout=(60, 600),
             doc='stop job on a peer: same'),
+    Harness('H16f', placements, quick={'n': 2}, thorough={'n': 3}, reach=('done',), timeout=(60, 600),
+            doc='unplaceable / placeable start requests through the real Starter raise no internal error'),
+    Harness('H16g', disturbed_distribution, quick={'n': 3}, thorough={'n': 3}, reach=('done',), timeout=(90, 300),
+            doc='crashes and restarts during a real pending DISTRIBUTION leave no critical traceback'),
     Harness('H16a', one_event, quick={'n': 2, 'fsm_states': ['SYNCHRONIZATION', 'ELECTION', 'DISTRIBUTION',
                                                              'OPERATION', 'CONCILIATION']},
             thorough={'n': 2}, reach=('done',), timeout=(200, 1800),
